@@ -216,7 +216,10 @@ Definition copy_assign_alive (m : mem) (th : option nat) (dst : nat) (v : Z) : o
 Fixpoint fill_n_alive (m : mem) (th : option nat) (dst n : nat) (v : Z) : out :=
   match n with 0 => Done m th
   | S k => match copy_assign_alive m th dst v with Done m1 th1 => fill_n_alive m1 th1 (S dst) k v | o => o end end.
+(* insert(pos, 0, v) does nothing (the guard `if (count > 0)` of the code: without it shift_right(0) would move-assign every
+   element of [pos, size) onto itself - found by the slot-level correspondence, lib/slotcorr.py) *)
 Definition insert_cnt_th (m : mem) (th : option nat) (size pos count : nat) (v : Z) : out :=
+  if count =? 0 then Done m th else
   let n := size - pos in
   match shift_right_cnt m pos n count with
   | inr e => Err e
@@ -244,7 +247,9 @@ Theorem insert_count_at_end_strong m th size cap count v :
   | Err _ => False
   end.
 Proof.
-  intros HI Hc. pose proof HI as (Hsc & Hl & Hr & Ho). unfold insert_cnt_th. rewrite Nat.sub_diag. unfold shift_right_cnt.
+  intros HI Hc. pose proof HI as (Hsc & Hl & Hr & Ho). unfold insert_cnt_th.
+  destruct (Nat.eqb_spec count 0) as [->|Hcnt]; [rewrite Nat.add_0_r; assumption|].
+  rewrite Nat.sub_diag. unfold shift_right_cnt.
   destruct (Nat.ltb_spec count 0); [lia|]. cbn [uninit_move_n]. destruct (Nat.ltb_spec 0 count) as [Hpos|Hz].
   - rewrite Nat.add_0_r, Nat.sub_0_r. pose proof (resize_grow_strong m th size cap (size + count) v HI ltac:(lia)) as R. unfold resize_grow in R.
     replace (size + count - size) with count in R by lia.
